@@ -82,7 +82,7 @@ open Model.InflB in
     is still to be handed over is the ring driver's cursor, the caller's unconsumed input is the ring
     driver's carry followed by what has been supplied since (`fed`), and what has been handed over so
     far (`D`) plus what is pending is what the ring driver delivered. -/
-structure Running (flags : Nat) (K : List (Array UInt8)) (w : WB) (inBuf fed D : Array UInt8) : Prop where
+structure Running (flags : Nat) (K : List (Array UInt8)) (w : WB) (inBuf fed D : Array UInt8) (C : Nat) : Prop where
   sus   : ∀ x ∈ runRing flags dictSize {} (Array.replicate dictSize 0) 0 #[] K, suspended x.1
   regs  : w.r = (ringEnd flags dictSize {} (Array.replicate dictSize 0) 0 #[] K).1
   dict  : w.dict = (ringEnd flags dictSize {} (Array.replicate dictSize 0) 0 #[] K).2.1
@@ -94,11 +94,13 @@ structure Running (flags : Nat) (K : List (Array UInt8)) (w : WB) (inBuf fed D :
   deliv : D ++ w.dict.extract w.ofs (w.ofs + w.avail) =
             deliveredRing (runRing flags dictSize {} (Array.replicate dictSize 0) 0 #[] K)
   last  : w.last = stNeedsMoreInput ∨ w.last = stHasMoreOutput
+  /-- `C`: input consumed by the wrapper so far = input consumed by the ring driver's calls -/
+  cons  : C = ((runRing flags dictSize {} (Array.replicate dictSize 0) 0 #[] K).map (·.1.consumed)).sum
 
 open Model.InflB in
-theorem Running.fresh (flags : Nat) (fed : Array UInt8) : Running flags [] WB.fresh (#[] ++ fed) fed #[] :=
+theorem Running.fresh (flags : Nat) (fed : Array UInt8) : Running flags [] WB.fresh (#[] ++ fed) fed #[] 0 :=
   ⟨fun x hx => by simp [runRing] at hx, rfl, rfl, by show ringNext dictSize (0 + 0) = 0; decide, by show 0 < dictSize; decide, by simp [WB.fresh],
-    by show 0 + 0 ≤ dictSize; decide, rfl, by simp [runRing, deliveredRing, WB.fresh], .inl rfl⟩
+    by show 0 + 0 ≤ dictSize; decide, rfl, by simp [runRing, deliveredRing, WB.fresh], .inl rfl, by simp [runRing]⟩
 
 theorem ringNext_lt {W p : Nat} (h : p < W) : ringNext W p = p := by
   unfold ringNext; rw [if_neg (by omega)]
@@ -108,16 +110,16 @@ theorem ringNext_self (W : Nat) : ringNext W W = 0 := by
 
 open Model.InflB in
 /-- `push_dict_out` keeps the relation: what is handed over moves from "pending" to "delivered". -/
-theorem Running.push {flags : Nat} {K : List (Array UInt8)} {w : WB} {inBuf fed D : Array UInt8}
-    (h : Running flags K w inBuf fed D) (room : Nat) :
-    Running flags K (push w room).2 inBuf fed (D ++ (push w room).1) ∧ (push w room).2.last = w.last ∧
+theorem Running.push {flags : Nat} {K : List (Array UInt8)} {w : WB} {inBuf fed D : Array UInt8} {C : Nat}
+    (h : Running flags K w inBuf fed D C) (room : Nat) :
+    Running flags K (push w room).2 inBuf fed (D ++ (push w room).1) C ∧ (push w room).2.last = w.last ∧
     (push w room).1.size = min w.avail room ∧ (push w room).2.avail = w.avail - min w.avail room := by
   have hW : dictSize = 32768 := rfl
   have hofs := h.ofsLt
   have hfits := h.fits
   have hsize : (w.dict.extract w.ofs (w.ofs + min w.avail room)).size = min w.avail room := by
     rw [Array.size_extract, h.dsz]; omega
-  refine ⟨⟨h.sus, h.regs, h.dict, ?_, ?_, h.dsz, ?_, h.inb, ?_, h.last⟩, rfl, hsize, rfl⟩
+  refine ⟨⟨h.sus, h.regs, h.dict, ?_, ?_, h.dsz, ?_, h.inb, ?_, h.last, h.cons⟩, rfl, hsize, rfl⟩
   · show ringNext dictSize ((w.ofs + min w.avail room) % dictSize + (w.avail - min w.avail room)) = _
     rw [← h.pos]
     by_cases hlt : w.ofs + min w.avail room < dictSize
@@ -154,8 +156,8 @@ theorem Running.push {flags : Nat} {K : List (Array UInt8)} {w : WB} {inBuf fed 
 open Model.InflB in
 /-- ONE INNER CALL of the wrapper (window drained) is the ring driver's next call; on a valid stream
     its status is one of four. -/
-theorem Running.next {flags : Nat} {V : Array UInt8 → Prop} {P : Array UInt8} (hf : RingTheory flags V P) {K : List (Array UInt8)} {w : WB}
-    {inBuf fed D : Array UInt8} (h : Running flags K w inBuf fed D) (ha : w.avail = 0)
+theorem Running.next {flags : Nat} {V : Array UInt8 → Prop} {P : Array UInt8} {L : Nat} (hf : RingTheory flags V P L) {K : List (Array UInt8)} {w : WB}
+    {inBuf fed D : Array UInt8} {C : Nat} (h : Running flags K w inBuf fed D C) (ha : w.avail = 0)
     (b : Array UInt8)
     (hvalid : V (catList (K ++ [fed]) ++ b)) :
     runRing flags dictSize {} (Array.replicate dictSize 0) 0 #[] (K ++ [fed]) =
@@ -191,8 +193,8 @@ theorem Running.next {flags : Nat} {V : Array UInt8 → Prop} {P : Array UInt8} 
 open Model.InflB in
 /-- After a suspended inner call the relation holds for the longer run: nothing new has been handed
     over yet, everything the call wrote is pending. -/
-theorem Running.step {flags : Nat} {V : Array UInt8 → Prop} {P : Array UInt8} (hf : RingTheory flags V P) {K : List (Array UInt8)} {w : WB}
-    {inBuf fed D : Array UInt8} (h : Running flags K w inBuf fed D) (ha : w.avail = 0)
+theorem Running.step {flags : Nat} {V : Array UInt8 → Prop} {P : Array UInt8} {L : Nat} (hf : RingTheory flags V P L) {K : List (Array UInt8)} {w : WB}
+    {inBuf fed D : Array UInt8} {C : Nat} (h : Running flags K w inBuf fed D C) (ha : w.avail = 0)
     (b : Array UInt8)
     (hvalid : V (catList (K ++ [fed]) ++ b))
     (hsusp : suspended (decompress w.r inBuf w.dict w.ofs (dictSize - w.ofs) flags)) :
@@ -201,10 +203,11 @@ theorem Running.step {flags : Nat} {V : Array UInt8 → Prop} {P : Array UInt8} 
                dict := (decompress w.r inBuf w.dict w.ofs (dictSize - w.ofs) flags).out,
                last := (decompress w.r inBuf w.dict w.ofs (dictSize - w.ofs) flags).status,
                avail := (decompress w.r inBuf w.dict w.ofs (dictSize - w.ofs) flags).written }
-      (inBuf.extract (decompress w.r inBuf w.dict w.ofs (dictSize - w.ofs) flags).consumed inBuf.size) #[] D := by
+      (inBuf.extract (decompress w.r inBuf w.dict w.ofs (dictSize - w.ofs) flags).consumed inBuf.size) #[] D
+      (C + (decompress w.r inBuf w.dict w.ofs (dictSize - w.ofs) flags).consumed) := by
   obtain ⟨s1, s2, _⟩ := h.next hf ha b hvalid
   have hfacts := decompress_facts w.r inBuf w.dict w.ofs (dictSize - w.ofs) flags
-  refine ⟨?_, ?_, ?_, ?_, h.ofsLt, ?_, ?_, ?_, ?_, ?_⟩
+  refine ⟨?_, ?_, ?_, ?_, h.ofsLt, ?_, ?_, ?_, ?_, ?_, ?_⟩
   · intro x hx
     rw [s1] at hx
     rcases List.mem_append.mp hx with hx | hx
@@ -222,6 +225,7 @@ theorem Running.step {flags : Nat} {V : Array UInt8 → Prop} {P : Array UInt8} 
     have he : w.dict.extract w.ofs (w.ofs + 0) = #[] := by simp [Nat.min_le_left]
     rw [he, Array.append_empty]
   · exact hsusp.symm.elim (fun h => .inr h) (fun h => .inl h)
+  · rw [s1, List.map_append, List.sum_append, ← h.cons]; simp
 
 end Model.Core
 
@@ -229,13 +233,14 @@ namespace Model.Core
 open Spec Model.InflB
 
 /-- When the inner call finishes the stream, what the ring driver has delivered is the plaintext. -/
-theorem Running.done {flags : Nat} {V : Array UInt8 → Prop} {P : Array UInt8} (hf : RingTheory flags V P) {K : List (Array UInt8)} {w : WB}
-    {inBuf fed D : Array UInt8} (h : Running flags K w inBuf fed D) (ha : w.avail = 0)
+theorem Running.done {flags : Nat} {V : Array UInt8 → Prop} {P : Array UInt8} {L : Nat} (hf : RingTheory flags V P L) {K : List (Array UInt8)} {w : WB}
+    {inBuf fed D : Array UInt8} {C : Nat} (h : Running flags K w inBuf fed D C) (ha : w.avail = 0)
     (b : Array UInt8)
     (hvalid : V (catList (K ++ [fed]) ++ b))
     (hdone : (decompress w.r inBuf w.dict w.ofs (dictSize - w.ofs) flags).status = stDone) :
     D ++ (decompress w.r inBuf w.dict w.ofs (dictSize - w.ofs) flags).out.extract w.ofs
-      (w.ofs + (decompress w.r inBuf w.dict w.ofs (dictSize - w.ofs) flags).written) = P := by
+      (w.ofs + (decompress w.r inBuf w.dict w.ofs (dictSize - w.ofs) flags).written) = P ∧
+    C + (decompress w.r inBuf w.dict w.ofs (dictSize - w.ofs) flags).consumed = L := by
   obtain ⟨s1, s2, _⟩ := h.next hf ha b hvalid
   obtain ⟨c, cs, hcs⟩ : ∃ c cs, K ++ [fed] = c :: cs := by
     cases hk : K ++ [fed] with
@@ -246,17 +251,19 @@ theorem Running.done {flags : Nat} {V : Array UInt8 → Prop} {P : Array UInt8} 
   have hlast : (runRing flags dictSize {} (Array.replicate dictSize 0) 0 #[] (c :: cs)).getLast? =
       some (decompress w.r inBuf w.dict w.ofs (dictSize - w.ofs) flags, w.ofs) := by
     rw [← hcs, s1, List.getLast?_concat]
-  have := hf.done c cs b (by rw [← hcs]; exact hvalid) hsus _ hlast hdone
+  obtain ⟨this, hcons⟩ := hf.done c cs b (by rw [← hcs]; exact hvalid) hsus _ hlast hdone
   rw [← hcs, s1, deliveredRing_append, deliveredRing_single, ← h.deliv, ha] at this
   have he : w.dict.extract w.ofs (w.ofs + 0) = #[] := by simp [Nat.min_le_left]
   rw [he, Array.append_empty] at this
-  exact this
+  refine ⟨this, ?_⟩
+  rw [← hcs, s1, List.map_append, List.sum_append, ← h.cons] at hcons
+  simpa using hcons
 
 /-- more input offered between two inner calls -/
-theorem Running.feed {flags : Nat} {K : List (Array UInt8)} {w : WB} {inBuf fed D : Array UInt8}
-    (h : Running flags K w inBuf fed D) (chunk : Array UInt8) :
-    Running flags K w (inBuf ++ chunk) (fed ++ chunk) D :=
-  ⟨h.sus, h.regs, h.dict, h.pos, h.ofsLt, h.dsz, h.fits, by rw [h.inb, Array.append_assoc], h.deliv, h.last⟩
+theorem Running.feed {flags : Nat} {K : List (Array UInt8)} {w : WB} {inBuf fed D : Array UInt8} {C : Nat}
+    (h : Running flags K w inBuf fed D C) (chunk : Array UInt8) :
+    Running flags K w (inBuf ++ chunk) (fed ++ chunk) D C :=
+  ⟨h.sus, h.regs, h.dict, h.pos, h.ofsLt, h.dsz, h.fits, by rw [h.inb, Array.append_assoc], h.deliv, h.last, h.cons⟩
 
 /-- geometry of the hand-over cursor -/
 structure WGeo (w : WB) : Prop where
@@ -264,8 +271,8 @@ structure WGeo (w : WB) : Prop where
   dsz   : w.dict.size = dictSize
   fits  : w.ofs + w.avail ≤ dictSize
 
-theorem Running.wgeo {flags : Nat} {K : List (Array UInt8)} {w : WB} {inBuf fed D : Array UInt8}
-    (h : Running flags K w inBuf fed D) : WGeo w := ⟨h.ofsLt, h.dsz, h.fits⟩
+theorem Running.wgeo {flags : Nat} {K : List (Array UInt8)} {w : WB} {inBuf fed D : Array UInt8} {C : Nat}
+    (h : Running flags K w inBuf fed D C) : WGeo w := ⟨h.ofsLt, h.dsz, h.fits⟩
 
 /-- `push_dict_out` on any window: what is handed over followed by what stays pending is what was
     pending. -/
@@ -326,18 +333,18 @@ theorem IsPrefix.of_append {X Y P : Array UInt8} (h : IsPrefix (X ++ Y) P) : IsP
 
 /-- THE STATE OF THE WRAPPER BETWEEN TWO CALLS on a valid stream of which `T` is still to come:
     running (the ring driver's state), or draining the tail of a finished stream. -/
-def WInv (flags : Nat) (V : Array UInt8 → Prop) (P : Array UInt8) (T : Array UInt8) (w : WB) (carry D : Array UInt8) : Prop :=
-  (∃ K fed, Running flags K w carry fed D ∧ V (catList (K ++ [fed]) ++ T)) ∨
-  (w.last = stDone ∧ 0 < w.avail ∧ WGeo w ∧ D ++ w.dict.extract w.ofs (w.ofs + w.avail) = P)
+def WInv (flags : Nat) (V : Array UInt8 → Prop) (P : Array UInt8) (L : Nat) (T : Array UInt8) (w : WB) (carry D : Array UInt8) (C : Nat) : Prop :=
+  (∃ K fed, Running flags K w carry fed D C ∧ V (catList (K ++ [fed]) ++ T)) ∨
+  (w.last = stDone ∧ 0 < w.avail ∧ WGeo w ∧ D ++ w.dict.extract w.ofs (w.ofs + w.avail) = P ∧ C = L)
 
 theorem catList_snoc_empty (K : List (Array UInt8)) (fed : Array UInt8) :
     catList ((K ++ [fed]) ++ [#[]]) = catList (K ++ [fed]) := by
   rw [catList_append]; simp [catList]
 
 /-- Between calls, what has been handed over is a prefix of the plaintext. -/
-theorem WInv.isPrefix {flags : Nat} {V : Array UInt8 → Prop} {P : Array UInt8} (hf : RingTheory flags V P) {T : Array UInt8} {w : WB}
-    {carry D : Array UInt8} (h : WInv flags V P T w carry D) : IsPrefix D P := by
-  rcases h with ⟨K, fed, hrun, hv⟩ | ⟨_, _, _, hD⟩
+theorem WInv.isPrefix {flags : Nat} {V : Array UInt8 → Prop} {P : Array UInt8} {L : Nat} (hf : RingTheory flags V P L) {T : Array UInt8} {w : WB}
+    {carry D : Array UInt8} {C : Nat} (h : WInv flags V P L T w carry D C) : IsPrefix D P := by
+  rcases h with ⟨K, fed, hrun, hv⟩ | ⟨_, _, _, hD, _⟩
   · cases K with
     | nil =>
       have hd := hrun.deliv
@@ -360,27 +367,27 @@ theorem WInv.isPrefix {flags : Nat} {V : Array UInt8 → Prop} {P : Array UInt8}
     offered no input at all), counts within what was offered, progress when there is input and
     room; at the end of the stream the plaintext; otherwise the invariant again with the unconsumed
     input carried over -/
-def CallOk (flags : Nat) (V : Array UInt8 → Prop) (P : Array UInt8) (T : Array UInt8) (D inp : Array UInt8) (room origIn c : Nat) (acc : Array UInt8)
+def CallOk (flags : Nat) (V : Array UInt8 → Prop) (P : Array UInt8) (L : Nat) (T : Array UInt8) (D inp : Array UInt8) (C room origIn c : Nat) (acc : Array UInt8)
     (out : WB × CallRes) : Prop :=
   (out.2.status = rOk ∨ out.2.status = rStreamEnd ∨ (out.2.status = rBuf ∧ origIn = 0)) ∧
   ∃ new n, out.2.out = acc ++ new ∧ out.2.consumed = c + n ∧ n ≤ inp.size ∧ new.size ≤ room ∧
     (0 < inp.size → 0 < room → 0 < n ∨ 0 < new.size ∨ out.2.status = rStreamEnd) ∧
-    (if out.2.status = rStreamEnd then D ++ new = P
-     else WInv flags V P T out.1 (inp.extract n inp.size) (D ++ new))
+    (if out.2.status = rStreamEnd then D ++ new = P ∧ C + n = L
+     else WInv flags V P L T out.1 (inp.extract n inp.size) (D ++ new) (C + n))
 
 /-- THE LOOP: from a running state with the window drained. -/
-theorem loop_ok {flags : Nat} {V : Array UInt8 → Prop} {P : Array UInt8} (hf : RingTheory flags V P) (T : Array UInt8) (origIn : Nat) :
-    ∀ (fuel : Nat) (w : WB) (inp : Array UInt8) (room c : Nat) (acc : Array UInt8) (K : List (Array UInt8)) (fed D : Array UInt8),
-    Running flags K w inp fed D → w.avail = 0 →
+theorem loop_ok {flags : Nat} {V : Array UInt8 → Prop} {P : Array UInt8} {L : Nat} (hf : RingTheory flags V P L) (T : Array UInt8) (origIn : Nat) :
+    ∀ (fuel : Nat) (w : WB) (inp : Array UInt8) (room c : Nat) (acc : Array UInt8) (K : List (Array UInt8)) (fed D : Array UInt8) (C : Nat),
+    Running flags K w inp fed D C → w.avail = 0 →
     V (catList (K ++ [fed]) ++ T) → room < fuel → inp.size ≤ origIn →
-    CallOk flags V P T D inp room origIn c acc (loopNone flags origIn fuel w inp room c acc) := by
+    CallOk flags V P L T D inp C room origIn c acc (loopNone flags origIn fuel w inp room c acc) := by
   intro fuel
   induction fuel with
   | zero =>
-    intro w inp room c acc K fed D h ha hv hfu
+    intro w inp room c acc K fed D C h ha hv hfu
     exact absurd hfu (Nat.not_lt_zero _)
   | succ fuel ih =>
-    intro w inp room c acc K fed D h ha hv hfu horig
+    intro w inp room c acc K fed D C h ha hv hfu horig
     obtain ⟨s1, s2, hst⟩ := h.next hf ha T hv
     have hfacts := decompress_facts w.r inp w.dict w.ofs (dictSize - w.ofs) flags
     have hncmp := decompress_more_ne_cmp flags hf.more w.r inp w.dict w.ofs (dictSize - w.ofs)
@@ -409,18 +416,18 @@ theorem loop_ok {flags : Nat} {V : Array UInt8 → Prop} {P : Array UInt8} (hf :
     rcases hst3 with hd | hsusp'
     · -- Done
       rw [if_neg (by rw [hd]; decide), if_neg (fun hh => absurd (hd.symm.trans hh.1) (by decide)), if_pos (.inl hd)]
-      have hD := h.done hf ha T hv (by rw [hres]; exact hd)
-      rw [hres] at hD
+      obtain ⟨hD, hCL⟩ := h.done hf ha T hv (by rw [hres]; exact hd)
+      rw [hres] at hD hCL
       by_cases h0 : w2.avail = 0
       · rw [if_pos ⟨hd, h0⟩]
         refine ⟨.inr (.inl rfl), bytes, rs.consumed, rfl, rfl, hcons, hbr, fun _ _ => .inr (.inr rfl), ?_⟩
         show (if rStreamEnd = rStreamEnd then _ else _)
-        rw [if_pos rfl, hall h0]; exact hD
+        rw [if_pos rfl, hall h0]; exact ⟨hD, hCL⟩
       · rw [if_neg (fun hh => h0 hh.2)]
         refine ⟨.inl rfl, bytes, rs.consumed, rfl, rfl, hcons, hbr, fun _ hr => .inr (.inl (by rw [hbsz]; omega)), ?_⟩
         show (if rOk = rStreamEnd then _ else _)
         rw [if_neg (by decide)]
-        refine .inr ⟨by rw [hlast2]; exact hd, Nat.pos_of_ne_zero h0, hgeo2, ?_⟩
+        refine .inr ⟨by rw [hlast2]; exact hd, Nat.pos_of_ne_zero h0, hgeo2, ?_, hCL⟩
         rw [Array.append_assoc, hsplit]; exact hD
     · have hsusp : suspended rs := by
         rcases hsusp' with h1 | h1
@@ -437,7 +444,7 @@ theorem loop_ok {flags : Nat} {V : Array UInt8 → Prop} {P : Array UInt8} (hf :
       have hnd : rs.status ≠ stDone := by
         rcases hsusp with h1 | h1 <;> rw [h1] <;> decide
       rw [if_neg hnn]
-      have hInv : WInv flags V P T w2 (inp.extract rs.consumed inp.size) (D ++ bytes) :=
+      have hInv : WInv flags V P L T w2 (inp.extract rs.consumed inp.size) (D ++ bytes) (C + rs.consumed) :=
         .inl ⟨K ++ [fed], #[], hrun2, hv2⟩
       -- progress of this inner call
       have hprog : 0 < inp.size → 0 < room → 0 < rs.consumed ∨ 0 < bytes.size := by
@@ -479,14 +486,14 @@ theorem loop_ok {flags : Nat} {V : Array UInt8 → Prop} {P : Array UInt8} (hf :
           have hsz' : (inp.extract rs.consumed inp.size).size = inp.size - rs.consumed := by
             rw [Array.size_extract]; omega
           obtain ⟨hstat, new, n, ho, hcn, hnle, hnr, _, hrest⟩ := ih w2 (inp.extract rs.consumed inp.size) (room - bytes.size)
-            (c + rs.consumed) (acc ++ bytes) (K ++ [fed]) #[] (D ++ bytes) hrun2 h0 hv2 (by omega) (by omega)
+            (c + rs.consumed) (acc ++ bytes) (K ++ [fed]) #[] (D ++ bytes) (C + rs.consumed) hrun2 h0 hv2 (by omega) (by omega)
           refine ⟨hstat, bytes ++ new, rs.consumed + n, by rw [ho, Array.append_assoc], by rw [hcn, Nat.add_assoc],
             by omega, by rw [Array.size_append]; omega, fun _ _ => .inr (.inl (by rw [Array.size_append]; omega)), ?_⟩
           have hext : (inp.extract rs.consumed inp.size).extract n (inp.extract rs.consumed inp.size).size =
               inp.extract (rs.consumed + n) inp.size := by
             rw [Array.extract_extract, Array.size_extract]
             congr 1; omega
-          rw [hext, Array.append_assoc] at hrest
+          rw [hext, Array.append_assoc, Nat.add_assoc] at hrest
           exact hrest
 
 theorem catList_feed (K : List (Array UInt8)) (fed chunk T : Array UInt8) :
@@ -495,13 +502,13 @@ theorem catList_feed (K : List (Array UInt8)) (fed chunk T : Array UInt8) :
   simp [catList, Array.append_assoc]
 
 /-- ONE CALL of `inflate()` (not asking to finish) from any state of the invariant. -/
-theorem call_ok {flags : Nat} {V : Array UInt8 → Prop} {P : Array UInt8} (hf : RingTheory flags V P) (chunk T : Array UInt8)
-    (w : WB) (carry D : Array UInt8) (room : Nat)
-    (hinv : WInv flags V P (chunk ++ T) w carry D) :
-    CallOk flags V P T D (carry ++ chunk) room (carry ++ chunk).size 0 #[] (inflateNone flags w (carry ++ chunk) room) := by
+theorem call_ok {flags : Nat} {V : Array UInt8 → Prop} {P : Array UInt8} {L : Nat} (hf : RingTheory flags V P L) (chunk T : Array UInt8)
+    (w : WB) (carry D : Array UInt8) (C room : Nat)
+    (hinv : WInv flags V P L (chunk ++ T) w carry D C) :
+    CallOk flags V P L T D (carry ++ chunk) C room (carry ++ chunk).size 0 #[] (inflateNone flags w (carry ++ chunk) room) := by
   have e1 : (carry ++ chunk).extract 0 (carry ++ chunk).size = carry ++ chunk := Array.extract_size
   unfold inflateNone
-  rcases hinv with ⟨K, fed, hrun, hv⟩ | ⟨hlast, hav, hgeo, hD⟩
+  rcases hinv with ⟨K, fed, hrun, hv⟩ | ⟨hlast, hav, hgeo, hD, hCL⟩
   · -- running
     have hl1 : w.last ≠ stFailedCannotMakeProgress := by
       rcases hrun.last with h | h <;> rw [h] <;> decide
@@ -515,7 +522,7 @@ theorem call_ok {flags : Nat} {V : Array UInt8 → Prop} {P : Array UInt8} (hf :
       rw [catList_feed]; exact hv
     by_cases ha : w.avail = 0
     · rw [if_neg (fun hh => hh ha)]
-      exact loop_ok hf T _ _ w (carry ++ chunk) room 0 #[] K (fed ++ chunk) D hrun' ha hv' (by omega) (Nat.le_refl _)
+      exact loop_ok hf T _ _ w (carry ++ chunk) room 0 #[] K (fed ++ chunk) D C hrun' ha hv' (by omega) (Nat.le_refl _)
     · rw [if_pos ha]
       obtain ⟨hrun2, hlast2, hbsz, _⟩ := hrun'.push room
       generalize hp : push w room = pr at hrun2 hlast2 hbsz
@@ -538,44 +545,45 @@ theorem call_ok {flags : Nat} {V : Array UInt8 → Prop} {P : Array UInt8} (hf :
     · rw [if_pos ⟨by rw [hlast2]; exact hlast, h0⟩]
       refine ⟨.inr (.inl rfl), bytes, 0, by simp, rfl, Nat.zero_le _, hbr, fun _ _ => .inr (.inr rfl), ?_⟩
       show (if rStreamEnd = rStreamEnd then _ else _)
-      rw [if_pos rfl, hall h0]; exact hD
+      rw [if_pos rfl, hall h0]; exact ⟨hD, by omega⟩
     · rw [if_neg (fun hh => h0 hh.2)]
       refine ⟨.inl rfl, bytes, 0, by simp, rfl, Nat.zero_le _, hbr, fun _ hr => .inr (.inl (by rw [hbsz]; omega)), ?_⟩
       show (if rOk = rStreamEnd then _ else _)
       rw [if_neg (by decide), e1]
-      refine .inr ⟨by rw [hlast2]; exact hlast, Nat.pos_of_ne_zero h0, hgeo2, ?_⟩
+      refine .inr ⟨by rw [hlast2]; exact hlast, Nat.pos_of_ne_zero h0, hgeo2, ?_, by omega⟩
       rw [Array.append_assoc, hsplit]; exact hD
 
 /-- WHAT A CALLER OF `inflate()` MAY RELY ON for a stream whose plaintext is `P`: each call (offered
     `n` bytes of input and `room` bytes of output space) returns Ok, StreamEnd or — only when it was
     offered no input — a buffer error; counts stay within what was offered; with input and room
     there is progress (or the end); what has been handed over so far is a prefix of `P`; and when
-    stream end is reported it is all of `P`. -/
-def Safe (P : Array UInt8) : Array UInt8 → List (Nat × Nat × Model.InflB.CallRes) → Prop
-  | _, [] => True
-  | D, (n, room, r) :: rs =>
+    stream end is reported it is all of `P` and the input consumed over all calls (`C` before these)
+    is exactly `L`, the length of the encoded stream. -/
+def Safe (P : Array UInt8) (L : Nat) : Array UInt8 → Nat → List (Nat × Nat × Model.InflB.CallRes) → Prop
+  | _, _, [] => True
+  | D, C, (n, room, r) :: rs =>
       (r.status = Model.InflB.rOk ∨ r.status = Model.InflB.rStreamEnd ∨ (r.status = Model.InflB.rBuf ∧ n = 0)) ∧
       r.consumed ≤ n ∧ r.out.size ≤ room ∧
       (0 < n → 0 < room → 0 < r.consumed ∨ 0 < r.out.size ∨ r.status = Model.InflB.rStreamEnd) ∧
       IsPrefix (D ++ r.out) P ∧
-      (if r.status = Model.InflB.rStreamEnd then D ++ r.out = P else Safe P (D ++ r.out) rs)
+      (if r.status = Model.InflB.rStreamEnd then D ++ r.out = P ∧ C + r.consumed = L else Safe P L (D ++ r.out) (C + r.consumed) rs)
 
 /-- ANY SEQUENCE OF CALLS from a state of the invariant is safe. -/
-theorem run_safe {flags : Nat} {V : Array UInt8 → Prop} {P : Array UInt8} (hf : RingTheory flags V P) (b0 : Array UInt8) :
-    ∀ (calls : List (Array UInt8 × Nat)) (w : WB) (carry D : Array UInt8),
-    WInv flags V P (catList (calls.map Prod.fst) ++ b0) w carry D →
-    Safe P D (runInfl flags w carry calls) := by
+theorem run_safe {flags : Nat} {V : Array UInt8 → Prop} {P : Array UInt8} {L : Nat} (hf : RingTheory flags V P L) (b0 : Array UInt8) :
+    ∀ (calls : List (Array UInt8 × Nat)) (w : WB) (carry D : Array UInt8) (C : Nat),
+    WInv flags V P L (catList (calls.map Prod.fst) ++ b0) w carry D C →
+    Safe P L D C (runInfl flags w carry calls) := by
   intro calls
   induction calls with
-  | nil => intro w carry D _; exact trivial
+  | nil => intro w carry D C _; exact trivial
   | cons cr rest ih =>
-    intro w carry D hinv
+    intro w carry D C hinv
     obtain ⟨chunk, room⟩ := cr
     have hT : catList (((chunk, room) :: rest).map Prod.fst) ++ b0 = chunk ++ (catList (rest.map Prod.fst) ++ b0) := by
       show (chunk ++ catList (rest.map Prod.fst)) ++ b0 = _
       rw [Array.append_assoc]
     rw [hT] at hinv
-    obtain ⟨hstat, new, n, ho, hc, hnle, hnr, hprog, hrest⟩ := call_ok hf chunk _ w carry D room hinv
+    obtain ⟨hstat, new, n, ho, hc, hnle, hnr, hprog, hrest⟩ := call_ok hf chunk _ w carry D C room hinv
     unfold runInfl
     generalize hcall : inflateNone flags w (carry ++ chunk) room = cr at hstat ho hc hprog hrest
     obtain ⟨w', r⟩ := cr
@@ -585,15 +593,15 @@ theorem run_safe {flags : Nat} {V : Array UInt8 → Prop} {P : Array UInt8} (hf 
     refine ⟨hstat, by rw [hc']; exact hnle, by rw [ho']; exact hnr, by rw [hc', ho']; exact hprog, ?_, ?_⟩
     · by_cases he : r.status = rStreamEnd
       · rw [if_pos he] at hrest
-        rw [ho', hrest]; exact IsPrefix.refl _
+        rw [ho', hrest.1]; exact IsPrefix.refl _
       · rw [if_neg he] at hrest
         rw [ho']; exact hrest.isPrefix hf
     · by_cases he : r.status = rStreamEnd
       · rw [if_pos he] at hrest ⊢
-        rw [ho']; exact hrest
+        rw [ho', hc']; exact hrest
       · rw [if_neg he] at hrest ⊢
         rw [ho', hc']
-        exact ih w' _ _ hrest
+        exact ih w' _ _ _ hrest
 
 end Model.Core
 
@@ -603,20 +611,21 @@ open Spec Model.InflB
 /-- THE FIRST-CALL `Finish` SHORTCUT on a valid stream (any format with a flat theory): with room for
     the plaintext the call reports stream end and has written exactly the plaintext; without, it
     reports a buffer error and the state is dead (`Failed` remembered). -/
-theorem finish_first_ok {fmtFlags : Nat} {V : Array UInt8 → Prop} {P : Array UInt8}
-    (T : FlatTheory (fmtFlags + fNonWrapping) V P) (z out : Array UInt8) (hv : V z) :
+theorem finish_first_ok {fmtFlags : Nat} {V : Array UInt8 → Prop} {P : Array UInt8} {L : Nat}
+    (T : FlatTheory (fmtFlags + fNonWrapping) V P L) (z out : Array UInt8) (hv : V z) :
     (P.size ≤ out.size → (inflateFinishFirst fmtFlags z out).1.status = rStreamEnd ∧
-      (inflateFinishFirst fmtFlags z out).1.out = P ∧ (inflateFinishFirst fmtFlags z out).2 = stDone) ∧
+      (inflateFinishFirst fmtFlags z out).1.out = P ∧ (inflateFinishFirst fmtFlags z out).2 = stDone ∧
+      (inflateFinishFirst fmtFlags z out).1.consumed = L) ∧
     (out.size < P.size → (inflateFinishFirst fmtFlags z out).1.status = rBuf ∧
       (inflateFinishFirst fmtFlags z out).2 = stFailed) := by
   constructor
   · intro hfit
-    obtain ⟨h1, h2, h3⟩ := T.fits z out out.size hv (by rw [Nat.min_self]; exact hfit)
+    obtain ⟨h1, h2, h3, h4⟩ := T.fits z out out.size hv (by rw [Nat.min_self]; exact hfit)
     unfold inflateFinishFirst
     simp only [h1]
     rw [if_neg (by decide), if_neg (by decide)]
     simp only [if_true]
-    refine ⟨trivial, ?_, trivial⟩
+    refine ⟨trivial, ?_, trivial, h4⟩
     show (decompress {} z out 0 out.size (fmtFlags + fNonWrapping)).out.extract 0
       (decompress {} z out 0 out.size (fmtFlags + fNonWrapping)).written = P
     rw [h2]
